@@ -1094,12 +1094,20 @@ impl<'a> CompactionIterator<'a> {
 			let current_visibility = self.find_earliest_visible_snapshot(seq_num)?;
 
 			// Check if this version is superseded by a newer version
+			// With versioning, a superseded version is history: it may only go once it
+			// has aged out of the retention window (never when retention is unlimited).
+			let history_allows_drop = !self.enable_versioning
+				|| (self.retention_period_ns > 0
+					&& self.clock.now().saturating_sub(key.timestamp) > self.retention_period_ns);
+
 			let superseded = if let Some(newer_vis) = newer_version_visibility {
 				// Can we drop superseded versions in this scenario?
 				let snapshot_allows_drop = match current_visibility {
-					// Active snapshots exist - use visibility boundaries to decide
-					SnapshotVisibility::BoundedBySnapshot(_) => true,
-					SnapshotVisibility::NewerThanAllSnapshots => true,
+					// Active snapshots exist - use visibility boundaries to decide, but an
+					// open reader must not make compaction throw away history that the
+					// retention rules would keep.
+					SnapshotVisibility::BoundedBySnapshot(_) => history_allows_drop,
+					SnapshotVisibility::NewerThanAllSnapshots => history_allows_drop,
 					// No snapshots - only drop if versioning is disabled
 					// (with versioning enabled, retention policy decides instead)
 					SnapshotVisibility::NoActiveSnapshots => !self.enable_versioning,
